@@ -67,7 +67,16 @@ pub fn def_script(d: &CmdDef) -> String {
     format!("{{\n{}  run: {{|frame|\n{}  }}\n}}", ro, body)
 }
 
-pub const BAD_DEFS: &[&str] = &["{run: {|frame| ", "{norun: 1}", "not nu at all (((", "{run: 5}"];
+pub const BAD_DEFS: &[&str] = &[
+    "{run: {|frame| ",
+    "{norun: 1}",
+    "not nu at all (((",
+    "{run: 5}",
+    // a configuration that does not parse makes the definition invalid as a whole
+    "{return_options: {ttl: \"head:0\"}, run: {|frame| [1] | each {|x| $x}}}",
+    "{return_options: {ttl: \"time:soon\"}, run: {|frame| [1] | each {|x| $x}}}",
+    "{return_options: {ttl: 5}, run: {|frame| [1] | each {|x| $x}}}",
+];
 
 pub struct Call {
     pub frame: Frame,
